@@ -97,7 +97,7 @@ def run(R, tier):
     R.floor("R09.1", "integer writers", n_int, 40)
     # prefix letter <-> radix agrees with the lexer's radix table (writer/reader agreement)
     rb = u.body("scpi::parser::tokenizer::Tokenizer::read_nondecimal_data")
-    engl = fdai.Engine(P, u, inline=lambda n, r: False, models={})
+    engl = fdai.Engine(P, u, inline=D.inline_inherent(("scpi::parser::tokenizer::",), exclude=("scpi::parser::tokenizer::Tokenizer::skip_ws_to_separator",)), models={})
     reader = {}
     for letter in b"HhQqBbXx":
         res = engl.run(rb, [RefV(Cell(TOP, "tok"), (), True), K(letter)])
